@@ -541,6 +541,11 @@ func (e *Eng) makeSlice(T types.Type, ln, cp *Term, lenT types.Type, pos token.P
 		return SliceVal{o, tb.I64(0), ln, cp}
 	}
 	if !cp.IsConst() {
+		// allocation obligation for non-byte slices: capacity times element size
+		esz := types.SizesFor("gc", "amd64").Sizeof(st.Elem())
+		if esz > 0 && esz < 1<<20 {
+			e.allocCheck(tb.Mul(cp, tb.I64(esz)), pos)
+		}
 		c := e.concretize(cp, 64)
 		cp = tb.Const(64, c)
 	}
